@@ -229,12 +229,17 @@ func runC08(r *Run, replay *Case) {
 		r.Add(c08Shared(replay.Input["theme"] == true, replay.Input["dataYml"] == true, replay.Input["fm"] == true, replay.Input["shape"].(string)))
 		return
 	}
+	if replay != nil && replay.Input["stream"] == "layoutchain" {
+		c08LayoutChain(r)
+		return
+	}
 	if replay != nil {
 		var cs c08Case
 		remarshal(replay.Input["case"], &cs)
 		r.Add(c08Eval(cs))
 		return
 	}
+	c08LayoutChain(r)
 	r.Res.Rule = "every presence pattern of {front-matter, Fill/Assign layer, data/*.yml, theme.yml} x key addressed by JSON tag / field name x data given as map, struct, pointer-to-struct x " +
 		"every call history <= N over {fill-map, fill-struct, fill-ptr, fill-empty, assign, new, load} before the page is loaded, and histories with up to 2 calls before and up to 2 calls AFTER loading the page, x four read positions ({{ }}, bound attribute, v-if, Get); non-trivial = at least one source defines the key"
 	calls := []string{"fill-map", "fill-struct", "fill-ptr", "fill-empty", "assign", "new", "load", "fill-map-blank", "fill-struct-blank"}
@@ -404,4 +409,63 @@ func c08Shared(theme, dataYml, fm bool, shape string) *Case {
 	}
 	c.Impl = buf.String()
 	return c
+}
+
+// the same precedence in every file of a LAYOUT CHAIN: a layout sees its own front-matter first, then what the page was given (Fill/Assign), then
+// data/*.yml, then theme.yml — the front-matter of ANOTHER file of the chain (the page's, an inner layout's) is not one of its sources
+func c08LayoutChain(r *Run) {
+	for mask := 0; mask < 8; mask++ {
+		for _, inner := range []bool{true, false} { // does the inner layout define the key in its front-matter?
+			mfs := map[string]string{}
+			if mask&1 != 0 {
+				mfs["theme.yml"] = "k: theme\n"
+			}
+			if mask&2 != 0 {
+				mfs["data/site.yml"] = "k: datayml\n"
+			}
+			fill := map[string]any{"zz": 1}
+			if mask&4 != 0 {
+				fill["k"] = "fill"
+			}
+			mfs["p.vuego"] = "---\nlayout: post\npagekey: pk\n---\n<p>[page:{{ k }}]</p>"
+			postFM := "layout: base\n"
+			if inner {
+				postFM += "k: post\n"
+			}
+			mfs["layouts/post.vuego"] = "---\n" + postFM + "---\n<article>[post:{{ k }}]<div v-html=\"content\"></div></article>"
+			mfs["layouts/base.vuego"] = `<main>[base:{{ k }}]<b :title="k">[attr]</b><i v-if="k == 'post'">[if:post]</i><div v-html="content"></div></main>`
+			res := renderPage(mfs, "p.vuego", fill)
+			want := ""
+			switch {
+			case mask&4 != 0:
+				want = "fill"
+			case mask&2 != 0:
+				want = "datayml"
+			case mask&1 != 0:
+				want = "theme"
+			}
+			wantPost := want
+			if inner {
+				wantPost = "post"
+			}
+			desc := fmt.Sprintf("layout chain theme=%v datayml=%v fill=%v inner-front-matter=%v", mask&1 != 0, mask&2 != 0, mask&4 != 0, inner)
+			c := &Case{Name: desc, Input: map[string]any{"stream": "layoutchain", "desc": desc, "files": mfs}, Impl: res.canon(), Oracle: &Verdict{OK: true}, Key: desc, Tags: []string{"stream:layout-chain"}}
+			got := map[string]string{}
+			for _, m := range c08Re.FindAllStringSubmatch(res.Out, -1) {
+				got[m[1]] = m[2]
+			}
+			titleRe := regexp.MustCompile(`title="([^"]*)"`)
+			title := ""
+			if m := titleRe.FindStringSubmatch(res.Out); m != nil {
+				title = m[1]
+			}
+			switch {
+			case res.Err != "" || res.Panic != "":
+				c.Oracle = &Verdict{OK: false, Class: "render-error:layout-chain", Detail: fmt.Sprintf("%s: %+v", desc, res)}
+			case got["page"] != want || got["post"] != wantPost || got["base"] != want || title != want || strings.Contains(res.Out, "[if:post]"):
+				c.Oracle = &Verdict{OK: false, Class: "layout-sees-another-files-front-matter", Detail: fmt.Sprintf("%s: page sees %q (want %q), inner layout %q (want %q), outer layout %q / attribute %q (want %q); output %q", desc, got["page"], want, got["post"], wantPost, got["base"], title, want, res.Out)}
+			}
+			r.Add(c)
+		}
+	}
 }
